@@ -122,6 +122,14 @@ def embed_shapes(P, args):
     inner = P.Query([P.TransformQuerySegment(query=[P.ActionRequest.from_arguments("sub", *a)])])
     q3 = P.Query().with_action("outer", "u", P.LinkActionParameter(inner), "w")
     yield "inside link", q3, lambda p: [x.string for x in p.segments[0].query[0].parameters[1].link.segments[0].query[0].parameters]
+    # built step by step WITH the encoded form looked at in between (str(), logging, an f-string): the text of the finished query must
+    # be the text of the same query built in one go - every argument of the later actions comes back
+    q5 = P.Query().with_action("first", "u")
+    q5.encode()
+    q5.with_action("cmd", *a)
+    str(q5)
+    q5.with_action("last", "x")
+    yield "built step by step, encoded in between", q5, lambda p: [x.string for x in p.segments[0].query[1].parameters]
     hdr = P.SegmentHeader(name="ns", level=2, parameters=[P.StringActionParameter(x) for x in a])
     q4 = P.Query([P.TransformQuerySegment(header=hdr, query=[P.ActionRequest.from_arguments("cmd", "k")])])
     yield "header parameters", q4, lambda p: [x.string for x in p.segments[0].header.parameters]
